@@ -11,7 +11,7 @@ import warnings
 warnings.filterwarnings("ignore")
 
 from . import core as sc
-from . import symnp, symxr, symmath
+from . import symnp, symxr, symmath, symhash
 
 
 def _is_ux(obj):
@@ -48,7 +48,7 @@ class World:
         import uxarray.grid.integrate  # noqa
         import numpy, xarray, math
         self.real_np, self.real_xr = numpy, xarray
-        self.by_name = {"np": symnp, "xr": symxr, "math": symmath, "warn": _noop, "prange": range,
+        self.by_name = {"np": symnp, "xr": symxr, "math": symmath, "hashlib": symhash, "warn": _noop, "prange": range,
                         "INT_DTYPE": symnp.intp, "print": _noop}
         if extra:
             self.by_name.update(extra)
